@@ -366,3 +366,150 @@ def hybrid_programs(rng: random.Random, n: int):
         text, ex = g.program(depth=rng.choice([2, 3]), nstmts=(2, 5), types=["int32_t", "uint32_t", "int64_t", "int16_t", "uint8_t"])
         items.append(dict(name=f"mix{i}", text=text, exports=ex, vkey="mix"))
     return items
+
+
+# --------------------------------------------------------------------------- C08: generated sub-routines
+def gen_subroutine(rng: random.Random, name: str, callable_subs=()):
+    """random sub-routine: parameter/return types over the 8 integer types, locals (prefixed with the
+    routine's name, like the bundled ones), a branch with a return in both arms or a straight return,
+    optionally a nested call. -> (compile tuple, c json dict, signature)"""
+    nparams = rng.randint(1, 3)
+    ptypes = [rng.choice(TYPES) for _ in range(nparams)]
+    ret = rng.choice(TYPES)
+    params = [f"{t} p{k}" for k, t in enumerate(ptypes)]
+    pn = [f"p{k}" for k in range(nparams)]
+
+    def e(d):
+        if d <= 0 or rng.random() < 0.3:
+            return rng.choice(pn + [str(rng.choice([1, 2, 3, 7, 0x80, 0xFF, 0x100]))] + locs)
+        c = rng.random()
+        if c < 0.5:
+            return f"({e(d - 1)} {rng.choice(BINOPS)} {e(d - 1)})"
+        if c < 0.65:
+            return f"(({rng.choice(TYPES)}) {e(d - 1)})"
+        if c < 0.8:
+            return f"({e(d - 1)} >> ({e(d - 1)} & 7))"
+        if c < 0.9 and callable_subs:
+            f, fsig = rng.choice(callable_subs)
+            return f"{f}({', '.join(e(d - 1) for _ in fsig)})"
+        return f"(({e(d - 1)} {rng.choice(CMPS)} {e(d - 1)}) ? {e(d - 1)} : {e(d - 1)})"
+
+    locs = []
+    stmts = []
+    for k in range(rng.randint(0, 2)):
+        t = rng.choice(TYPES)
+        ln = f"{name}_l{k}"
+        stmts.append(f"{t} {ln} = {e(2)};")
+        locs.append(ln)
+    if locs and rng.random() < 0.5:
+        stmts.append(f"{rng.choice(locs)} {rng.choice(['+=', '^=', '=', '-='])} {e(2)};")
+    if rng.random() < 0.5:
+        stmts.append(f"if ({e(1)} {rng.choice(CMPS)} {e(1)}) {{ return {e(2)}; }} else {{ {(rng.choice(locs) + ' += 1; ') if locs else ''}return {e(2)}; }}")
+    else:
+        stmts.append(f"return {e(2)};")
+    body = "{ " + " ".join(stmts) + " }"
+    sub, cs = sub_item(name, ret, params, body)
+    return sub, cs, ptypes
+
+
+def call_programs(rng: random.Random, n: int):
+    items = []
+    for i in range(n):
+        nsubs = rng.randint(1, 3)
+        subs, csubs, sigs = [], {}, []
+        for k in range(nsubs):
+            name = f"g{i}s{k}"
+            sub, cs, ptypes = gen_subroutine(rng, name, callable_subs=[(s[0], sg) for s, sg in zip(subs, [x[1] for x in sigs])] + [("clz32", ["uint32_t"]), ("fbrev", ["uint32_t"])])
+            subs.append(sub)
+            csubs.update(cs)
+            sigs.append((name, ptypes))
+        # call site: 1..4 calls per expression, calls as arguments of calls
+        args = ["RsV", "RtV", "RuuV", "RvvV", "uiV", "siV", "PwV", "a"]
+
+        def call(depth):
+            nm, pt = rng.choice(sigs)
+            aa = []
+            for _ in pt:
+                if depth > 0 and rng.random() < 0.3:
+                    aa.append(call(depth - 1))
+                else:
+                    aa.append(rng.choice(args))
+            return f"{nm}({', '.join(aa)})"
+
+        ncalls = rng.randint(1, 4)
+        expr = " ".join(f"{call(1)} {rng.choice(BINOPS)}" for _ in range(ncalls - 1)) + " " + call(1)
+        t = rng.choice(TYPES)
+        text = f"{{ {t} a = ({t}) {src_for(t)}; int64_t r = {expr}; RddV = r; ReV = a; }}"
+        items.append(dict(name=f"calls{i}", text=text, exports=[("a", t), ("r", "int64_t")], subs=subs, c_subs=csubs, aged=rng.choice([0, 0, 1, 7, 40]), vkey="calls"))
+    return items
+
+
+# --------------------------------------------------------------------------- C09: compile-time evaluation
+def literal_spellings():
+    """(spelling, python value, valid C?) around the type boundaries"""
+    out = []
+    centers = [0, 1, 2 ** 7, 2 ** 8, 2 ** 15, 2 ** 16, 2 ** 31, 2 ** 32, 2 ** 63]
+    vals = sorted({c + d for c in centers for d in (-1, 0, 1) if c + d >= 0} | {2 ** 64 - 1, 5, 0x7F7F, 0xDEADBEEF})
+    for v in vals:
+        for base in ("d", "x"):
+            for suf in ("", "U", "LL", "ULL"):
+                sp = (str(v) if base == "d" else hex(v)) + suf
+                # decimal constants that do not fit long long are not valid ISO C; signed suffixes need the value to fit
+                if base == "d" and suf in ("", "LL") and v >= 2 ** 63:
+                    continue
+                out.append((sp, v))
+    return out
+
+
+def fold_programs(rng: random.Random, n: int):
+    items = []
+    T = lambda name, text, ex=(), vk=None, **kw: items.append(dict(name=name, text=text, exports=list(ex), vkey=vk or name.split(";")[0], **kw))  # noqa
+    lits = literal_spellings()
+    # (1) the type of a literal: implicit widening, sizeof, mixing with a 64-bit register, comparison with -1
+    for sp, v in lits:
+        T(f"lit;widen;{sp}", f"{{ RddV = {sp}; }}", vk="lit:widen")
+        T(f"lit;add64;{sp}", f"{{ RddV = {sp} + RuuV; }}", vk="lit:add64")
+        T(f"lit;sizeof;{sp}", f"{{ ReV = sizeof({sp}); }}", vk="lit:sizeof")
+        T(f"lit;cmpneg;{sp}", f"{{ ReV = (RsV < {sp}); RddV = (-1 < {sp}); }}", vk="lit:cmp")
+        T(f"lit;shr;{sp}", f"{{ RddV = ({sp} >> 1) + (({sp}) >> (RsV & 7)); }}", vk="lit:shr")
+    # (2) folded operators on literals
+    small = ["0", "1", "2", "5", "7", "8", "0x7f", "0x80", "0xff", "0x7fffffff", "0x80000000", "0xffffffff", "5U", "1LL", "0x80000000U", "3ULL", "0xffffffffU", "2147483647", "2147483648", "4294967295", "4294967296"]
+    for op in ("+", "-", "*"):
+        for _ in range(max(6, n // 12)):
+            a, b = rng.choice(small), rng.choice(small)
+            T(f"fold;{op};{a};{b}", f"{{ RddV = {a} {op} {b}; ReV = sizeof({a} {op} {b}); }}", vk=f"fold:{op}")
+    for op in ("-", "+", "~"):
+        for a in small:
+            T(f"foldu;{op};{a}", f"{{ RddV = {op}({a}); RyyV = ({op}{a}) + RuuV; }}", vk=f"foldu:{op}")
+            T(f"foldu2;{op};{a}", f"{{ RddV = {op}{op}({a}); ReV = sizeof({op}{a}); }}", vk=f"foldu2:{op}")
+    for op in CMPS:
+        for _ in range(max(6, n // 12)):
+            a, b = rng.choice(small + ["-1", "-5", "-(1U)"]), rng.choice(small + ["-1"])
+            T(f"foldc;{op};{a};{b}", f"{{ ReV = ({a} {op} {b}); RddV = ({a} {op} {b}) ? RuuV : RvvV; }}", vk=f"foldc:{op}")
+    # (3) constant ?: ; sizeof of every operand type
+    for c in ("1", "0", "(2 > 1)", "(0x80000000 > 0)", "(1 ? 0 : 1)", "sizeof(RsV) == 4"):
+        T(f"cond;{c}", f"{{ RddV = {c} ? RuuV : RvvV; ReV = {c} ? 3 : RsV; }}", vk="cond")
+    for t in TYPES:
+        T(f"sizeof;{t}", f"{{ {t} q = ({t}) RsV; ReV = sizeof(q) + sizeof(RsV) * 16 + sizeof(RuuV) * 256 + sizeof(PwV) * 4096; RddV = sizeof(siV); }}", [("q", t)], vk="sizeof")
+    # (4) division: exact results may be folded or rejected, inexact and zero division must be rejected
+    for a, b, must in (("8", "2", False), ("7", "2", True), ("1", "0", True), ("0", "5", False), ("9", "3", False), ("10", "4", True), ("5U", "0U", True), ("1LL", "3", True)):
+        T(f"div;{a};{b}", f"{{ ReV = {a} / {b}; }}", vk="div", must_reject=must)
+    # (5) dead operands of a constant ?: that live code also uses
+    dead = [
+        ("reg_before", "{ ReV = RsV + RtV; RddV = 1 ? RuuV : RtV; }"),
+        ("reg_after", "{ RddV = 0 ? RtV : RuuV; ReV = RsV + RtV; }"),
+        ("reg_same", "{ RddV = (RsV ^ RuuV) + (1 ? RuuV : RuuV); }"),
+        ("reg_only_dead", "{ RddV = 1 ? RuuV : RtV; }"),
+        ("expr_dead", "{ RddV = 1 ? RuuV : (RtV + 5); ReV = RsV; }"),
+        ("local_dead", "{ int32_t q = RsV; RddV = 0 ? q : RuuV; ReV = q; }"),
+        ("local_only_dead", "{ int32_t q = RsV; RddV = 0 ? q : RuuV; }"),
+        ("call_dead", "{ ReV = clz32(RsV); RddV = 1 ? RuuV : clz32(RsV); }"),
+        ("call_only_dead", "{ RddV = 1 ? RuuV : clz32(RsV); ReV = RtV; }"),
+        ("se_dead", "{ int32_t q = RsV; RddV = 1 ? RuuV : ({ q = q + 1; q; }); ReV = q; }"),
+        ("imm_dead", "{ RddV = 1 ? RuuV : siV; ReV = siV + uiV; }"),
+        ("nested", "{ RddV = 1 ? (0 ? RtV : RuuV) : RsV; ReV = RsV + RtV; }"),
+        ("lit_dead", "{ RddV = 1 ? RuuV : 0x7; ReV = 0x7 + RsV; }"),
+    ]
+    for nm, text in dead:
+        T(f"dead;{nm}", text, [("q", "int32_t")] if "q =" in text else (), vk="dead:" + nm)
+    return items
